@@ -301,70 +301,91 @@ func checkWholeSliceLoops(p *Prog, r *Result, rule string, fn *ssa.Function) {
 		r.Report(rule, FuncName(fn), "variadic parameter", Undecided, "no slice parameter", "", nil, false)
 		return
 	}
-	// no re-slicing of the parameter anywhere
+	// no re-slicing of the parameter anywhere (in the function or in a helper the whole batch is handed to)
 	okSlice := true
 	nLoops := 0
+	type visit struct {
+		f *ssa.Function
+		p *ssa.Parameter
+	}
+	work := []visit{{fn, param}}
 	for _, b := range fn.Blocks {
 		for _, in := range b.Instrs {
-			if sl, ok := in.(*ssa.Slice); ok && sl.X == param {
-				okSlice = false
-				r.Report(rule, FuncName(fn), "parameter is not re-sliced", Violated, "the batch parameter is re-sliced: a loop over the sub-slice would skip elements", p.Pos(in.Pos()), nil, true)
+			if call, ok := in.(*ssa.Call); ok {
+				if g := call.Call.StaticCallee(); g != nil && g != fn && g.Blocks != nil && inSod(p, g) {
+					for i, a := range call.Call.Args {
+						if a == param && i < len(g.Params) {
+							work = append(work, visit{g, g.Params[i]})
+						}
+					}
+				}
+			}
+		}
+	}
+	for _, w := range work {
+		fn, param := w.f, w.p
+		for _, b := range fn.Blocks {
+			for _, in := range b.Instrs {
+				if sl, ok := in.(*ssa.Slice); ok && sl.X == param {
+					okSlice = false
+					r.Report(rule, FuncName(fn), "parameter is not re-sliced", Violated, "the batch parameter is re-sliced: a loop over the sub-slice would skip elements", p.Pos(in.Pos()), nil, true)
+				}
+			}
+		}
+		for _, lp := range naturalLoops(fn) {
+			// does the loop index the parameter with an induction variable?
+			for _, b := range lp.blocks {
+				for _, in := range b.Instrs {
+					ia, ok := in.(*ssa.IndexAddr)
+					if !ok || ia.X != param {
+						continue
+					}
+					if _, isConst := ia.Index.(*ssa.Const); isConst {
+						continue
+					}
+					nLoops++
+					construct := fmt.Sprintf("loop #%d over the batch starts at element 0 and is bounded by len", nLoops)
+					// index = phi(-1,...)+1 or phi(0,...)
+					start, bounded := false, false
+					idx := ia.Index
+					if bo, ok := idx.(*ssa.BinOp); ok && bo.Op == token.ADD {
+						if phi, ok := bo.X.(*ssa.Phi); ok {
+							for _, e := range phi.Edges {
+								if cst, ok := e.(*ssa.Const); ok && cst.Value != nil && cst.Value.String() == "-1" {
+									start = true
+								}
+							}
+						}
+					} else if phi, ok := idx.(*ssa.Phi); ok {
+						for _, e := range phi.Edges {
+							if cst, ok := e.(*ssa.Const); ok && cst.Value != nil && cst.Value.String() == "0" {
+								start = true
+							}
+						}
+					}
+					// bound: header compares idx with len(param)
+					if refs := idx.Referrers(); refs != nil {
+						for _, rf := range *refs {
+							if bo, ok := rf.(*ssa.BinOp); ok && bo.Op == token.LSS && bo.X == idx {
+								if call, ok := bo.Y.(*ssa.Call); ok {
+									if bi, ok := call.Call.Value.(*ssa.Builtin); ok && bi.Name() == "len" && call.Call.Args[0] == param {
+										bounded = true
+									}
+								}
+							}
+						}
+					}
+					if start && bounded {
+						r.Report(rule, FuncName(fn), construct, Discharged, "", p.Pos(in.Pos()), nil, true)
+					} else {
+						r.Report(rule, FuncName(fn), construct, Violated, fmt.Sprintf("loop over the batch does not cover the whole parameter (starts at first element: %v, bounded by len(parameter): %v)", start, bounded), p.Pos(in.Pos()), nil, true)
+					}
+				}
 			}
 		}
 	}
 	if okSlice {
 		r.Report(rule, FuncName(fn), "parameter is not re-sliced", Discharged, "", "", nil, true)
-	}
-	for _, lp := range naturalLoops(fn) {
-		// does the loop index the parameter with an induction variable?
-		for _, b := range lp.blocks {
-			for _, in := range b.Instrs {
-				ia, ok := in.(*ssa.IndexAddr)
-				if !ok || ia.X != param {
-					continue
-				}
-				if _, isConst := ia.Index.(*ssa.Const); isConst {
-					continue
-				}
-				nLoops++
-				construct := fmt.Sprintf("loop #%d over the batch starts at element 0 and is bounded by len", nLoops)
-				// index = phi(-1,...)+1 or phi(0,...)
-				start, bounded := false, false
-				idx := ia.Index
-				if bo, ok := idx.(*ssa.BinOp); ok && bo.Op == token.ADD {
-					if phi, ok := bo.X.(*ssa.Phi); ok {
-						for _, e := range phi.Edges {
-							if cst, ok := e.(*ssa.Const); ok && cst.Value != nil && cst.Value.String() == "-1" {
-								start = true
-							}
-						}
-					}
-				} else if phi, ok := idx.(*ssa.Phi); ok {
-					for _, e := range phi.Edges {
-						if cst, ok := e.(*ssa.Const); ok && cst.Value != nil && cst.Value.String() == "0" {
-							start = true
-						}
-					}
-				}
-				// bound: header compares idx with len(param)
-				if refs := idx.Referrers(); refs != nil {
-					for _, rf := range *refs {
-						if bo, ok := rf.(*ssa.BinOp); ok && bo.Op == token.LSS && bo.X == idx {
-							if call, ok := bo.Y.(*ssa.Call); ok {
-								if bi, ok := call.Call.Value.(*ssa.Builtin); ok && bi.Name() == "len" && call.Call.Args[0] == param {
-									bounded = true
-								}
-							}
-						}
-					}
-				}
-				if start && bounded {
-					r.Report(rule, FuncName(fn), construct, Discharged, "", p.Pos(in.Pos()), nil, true)
-				} else {
-					r.Report(rule, FuncName(fn), construct, Violated, fmt.Sprintf("loop over the batch does not cover the whole parameter (starts at first element: %v, bounded by len(parameter): %v)", start, bounded), p.Pos(in.Pos()), nil, true)
-				}
-			}
-		}
 	}
 	if nLoops < 2 {
 		r.Report(rule, FuncName(fn), "two loops over the batch", Violated, fmt.Sprintf("expected a validating loop and an inserting loop over the batch, found %d", nLoops), "", nil, true)
